@@ -1,5 +1,7 @@
 CONSTANTS
   Dev = {"D_nsec3_label_expect"}
+  Mut = {}
+  AdvOn = {"ANS", "DS", "DNSKEY"}
   AnchorForms = {"dnskey"}
   Cfgs = {"default"}
   MaxRuns = 1
